@@ -1041,7 +1041,7 @@ def partial_post(P, d, f, r, info):
     if 'returned None' in f['what']:
         # the real lexer must indeed stop with None before the end
         nn = [x for x in native if x[0] == 'none']
-        info['confirmation'] = 'native partial lexer returned None at %s' % (nn[0][1:] if nn else None)
+        info['confirmation'] = 'native partial lexer returned None at %s' % (nn[0][1:] if nn else None,)
         return bool(nn) and nn[0][1] < len(data) + 1
     if 'span after None' in f['what']:
         nn = [x for x in native if x[0] == 'none']
